@@ -174,6 +174,9 @@ pub struct HostileReq {
     /// 0 origin-form, 1 absolute-form, 2 asterisk (OPTIONS *), 3 very long origin-form
     pub target_kind: u8,
     pub path: String,
+    /// bytes appended to the path as %XX escapes (any byte value: an escape need not decode to UTF-8)
+    #[serde(default)]
+    pub pct: Vec<u8>,
     pub long_len: usize,
     pub version10: bool,
     /// header lines: name + raw value bytes (obs-text allowed); may repeat names
@@ -221,7 +224,7 @@ fn hostile_req() -> impl Strategy<Value = HostileReq> {
     (
         tchar_method(),
         prop_oneof![6 => Just(0u8), 1 => Just(1u8), 1 => Just(2u8), 1 => Just(3u8)],
-        crate::gen::sel(crate::gen::PATHS),
+        (crate::gen::sel(crate::gen::PATHS), prop_oneof![3 => Just(vec![]), 2 => prop::collection::vec(any::<u8>(), 1..6), 1 => prop::sample::select(vec![vec![0xffu8], vec![0x80], vec![0xc3], vec![0xc3, 0xa9], vec![0x2e, 0x2e], vec![0x00], vec![0xed, 0xa0, 0x80]])]),
         prop_oneof![Just(2000usize), Just(8000), Just(65000), Just(66000), Just(120_000), 1000usize..70_000],
         prop::bool::weighted(0.1),
         prop::collection::vec((crate::gen::sel(crate::gen::REQ_HNAMES), hostile_value()), 0..6),
@@ -229,7 +232,7 @@ fn hostile_req() -> impl Strategy<Value = HostileReq> {
         crate::gen::small_body(),
         prop_oneof![4 => Just(0u8), 3 => Just(1u8), 2 => Just(2u8), 1 => Just(3u8), 1 => Just(4u8)],
     )
-        .prop_map(|(method, target_kind, path, long_len, version10, headers, repeat_header, body, framing)| HostileReq { method, target_kind, path, long_len, version10, headers, repeat_header, body, framing })
+        .prop_map(|(method, target_kind, (path, pct), long_len, version10, headers, repeat_header, body, framing)| HostileReq { method, target_kind, path, pct, long_len, version10, headers, repeat_header, body, framing })
 }
 
 pub fn e2e_strategy() -> impl Strategy<Value = E2eCase> {
@@ -247,7 +250,7 @@ pub fn e2e_strategy() -> impl Strategy<Value = E2eCase> {
         .prop_map(|(exe_name, wide, wide_count, shift, uid, is_root, policy, key, requests)| E2eCase { exe_name, wide, wide_count, shift, uid, is_root, policy, key, requests })
 }
 
-pub const RULE_E2E: &str = "part B: through the real listener with a key latched in half of the cases: (i) requests that are syntactically valid by RFC 9112 - extension methods, origin/absolute/asterisk targets, targets of 1-120 KB, HTTP/1.0, header values with obs-text bytes 0x80-0xFF and tabs, values of 1-9 KB, one header repeated 2-150 times (around hyper's 100-header limit), bodies as Content-Length / chunked / chunked with extensions and a trailer / Expect: 100-continue; (ii) callers = freshly exec'ed helper processes whose executable name and argv contain long runs of 2/3/4-byte characters (300-6000 of them, shifted by 0-7 ASCII bytes) so that the connection-summary JSON and the 'Block unauthorized request' text cross bytes 4096 inside a character, users with multi-byte names from the generated passwd; IMDS under allow / enforce-deny / audit-deny rule sets and WireServer. oracle: the process-wide panic hook stays empty; every request receives a status line; after each case a canary request on a fresh attributed connection is relayed (200) and, every 25th case, status.json written by the real status task has advanced. non-trivial: a caller with >= 300 wide characters, or a header value with an obs-text byte, or a repeated header >= 99 times, or a target >= 60 KB; distinct by hash of the case.";
+pub const RULE_E2E: &str = "part B: through the real listener with a key latched in half of the cases: (i) requests that are syntactically valid by RFC 9112 - extension methods, origin/absolute/asterisk targets, paths ending in arbitrary %XX escapes (any byte value, e.g. %FF, %80, a lone %C3, %00), targets of 1-120 KB, HTTP/1.0, header values with obs-text bytes 0x80-0xFF and tabs, values of 1-9 KB, one header repeated 2-150 times (around hyper's 100-header limit), bodies as Content-Length / chunked / chunked with extensions and a trailer / Expect: 100-continue; (ii) callers = freshly exec'ed helper processes whose executable name and argv contain long runs of 2/3/4-byte characters (300-6000 of them, shifted by 0-7 ASCII bytes) so that the connection-summary JSON and the 'Block unauthorized request' text cross bytes 4096 inside a character, users with multi-byte names from the generated passwd; IMDS under allow / enforce-deny / audit-deny rule sets and WireServer. oracle: the process-wide panic hook stays empty; every request receives a status line; after each case a canary request on a fresh attributed connection is relayed (200) and, every 25th case, status.json written by the real status task has advanced. non-trivial: a caller with >= 300 wide characters, or a header value with an obs-text byte, or a repeated header >= 99 times, or a target >= 60 KB; distinct by hash of the case.";
 
 fn deny_all(mode: &str) -> GDoc {
     GDoc {
@@ -269,18 +272,26 @@ pub struct E2eState {
 }
 
 fn wire_of(r: &HostileReq) -> Vec<u8> {
+    let mut escaped = r.path.clone();
+    if !r.pct.is_empty() {
+        escaped.push('/');
+        for b in &r.pct {
+            escaped.push_str(&format!("%{:02X}", b));
+        }
+    }
+    let r_path = escaped;
     let target = match r.target_kind {
-        1 => format!("http://169.254.169.254{}", r.path),
+        1 => format!("http://169.254.169.254{}", r_path),
         2 => "*".to_string(),
         3 => {
-            let mut t = r.path.clone();
+            let mut t = r_path.clone();
             t.push_str("?q=");
             while t.len() < r.long_len {
                 t.push_str("abcdefghij0123456789");
             }
             t
         }
-        _ => r.path.clone(),
+        _ => r_path.clone(),
     };
     let method = if r.target_kind == 2 { "OPTIONS".to_string() } else { r.method.clone() };
     let mut out = Vec::new();
@@ -380,6 +391,10 @@ pub fn eval_e2e(rig: &Rig, st: &mut E2eState, case: &E2eCase, stats: &mut Stats)
         }
         if r.target_kind == 2 {
             stats.class("request:asterisk-form");
+        }
+        if r.pct.iter().any(|b| *b >= 0x80) {
+            stats.class("request:path-escape-not-utf8");
+            interesting = true;
         }
         if r.target_kind == 1 {
             stats.class("request:absolute-form");
